@@ -238,14 +238,16 @@ def header_tlv(login, inst=None, msg=None):
     return tlv(0x01, b)
 
 
-def pdu_v2(tag, login, key, payloads, alg=1, inst=None, msg=None):
-    """v2 PDU: header, payloads..., MAC over everything before the digest"""
-    body = header_tlv(login, inst, msg) + b"".join(payloads)
+def pdu_v2(tag, login, key, payloads, alg=1, inst=None, msg=None, mac_alg=None, header=True, mac=True):
+    """v2 PDU: header, payloads..., MAC (imprint) whose digest covers every byte of the PDU before the digest"""
+    body = (header_tlv(login, inst, msg) if header else b"") + b"".join(payloads)
+    if not mac:
+        return tlv(tag, body, long=True)
     maclen = 1 + HASH[alg][1]
     total = len(body) + 2 + maclen
     hdr = bytes([0x80 | (tag >> 8), tag & 0xff]) + struct.pack(">H", total)
-    pre = hdr + body + bytes([0x1f, maclen])
-    return pre + hmac_imprint(alg, key, pre + bytes([alg]))[0:1] + _hmac.new(key, pre + bytes([alg]), HASH[alg][0]).digest()
+    pre = hdr + body + bytes([0x1f, maclen]) + bytes([alg])
+    return pre + _hmac.new(key, pre, HASH[alg if mac_alg is None else mac_alg][0]).digest()[:HASH[alg][1]]
 
 
 def pdu_v1(tag, login, key, payload, alg=1, inst=None, msg=None):
@@ -253,3 +255,116 @@ def pdu_v1(tag, login, key, payload, alg=1, inst=None, msg=None):
     h = header_tlv(login, inst, msg)
     mac = hmac_imprint(alg, key, h + payload)
     return tlv(tag, h + payload + tlv(0x1f, mac))
+
+
+# ------------------------------------------------------------------ reference aggregator / calendar
+
+def rand_links(rng, n, first_corr=0, alg=1, kinds=("imprint",)):
+    out = []
+    for i in range(n):
+        k = rng.choice(kinds)
+        if k == "imprint":
+            d = fake_imprint(alg, b"sib" + bytes(rng.getrandbits(8) for _ in range(8)))
+        elif k == "legacy":
+            d = legacy_id(b"leg%d" % rng.randrange(1000))
+        else:
+            d = metadata_payload(b"cl%d" % rng.randrange(1000), padding="auto")
+        out.append(Link(rng.random() < 0.5, k, d, first_corr if i == 0 else rng.choice([0, 0, 0, 1, 2])))
+    return out
+
+
+class Sig:
+    """abstract-but-concrete signature: list of aggregation chains (dicts), calendar chain, pub/auth record"""
+    def __init__(self):
+        self.chains = []      # each: dict(time, index, inp, alg, links, input_data)
+        self.cal = None       # dict(pub, aggr, inp, links[(left, imprint)])
+        self.pub = None       # dict(time, imp)  -> 0803
+        self.auth = None      # dict(time, imp, sigtype, sigval, certid) -> 0805
+        self.rfc3161 = None   # raw TLV bytes
+        self.extra = []       # raw TLV bytes appended (unknown elements etc.)
+
+    def root(self):
+        """aggregate all chains from level 0: (root imprint, level) -- reference formula"""
+        lvl = 0
+        h = None
+        for c in self.chains:
+            r = aggregate(c["links"], c["inp"], lvl, c["alg"])
+            if r is None:
+                return None
+            h, lvl = r
+        return h, lvl
+
+    def tlv(self):
+        parts = [aggr_chain_tlv(c["time"], c["index"], c["inp"], c["alg"], c["links"], c.get("input_data")) for c in self.chains]
+        if self.cal:
+            parts.append(cal_chain_tlv(self.cal["pub"], self.cal["aggr"], self.cal["inp"], self.cal["links"]))
+        if self.pub:
+            parts.append(pub_record_tlv(self.pub["time"], self.pub["imp"], self.pub.get("refs", ()), self.pub.get("uris", ())))
+        if self.auth:
+            parts.append(cal_auth_tlv(self.auth))
+        if self.rfc3161:
+            parts.append(self.rfc3161)
+        return signature_tlv(parts + list(self.extra))
+
+
+def cal_auth_tlv(a):
+    sigdata = tlv(0x01, a.get("sigtype", b"1.2.840.113549.1.1.11") + b"\0") + tlv(0x02, a.get("sigval", b"\x01" * 64)) + tlv(0x03, a.get("certid", b"\xaa\xbb\xcc\xdd"))
+    return tlv(0x0805, tlv(0x10, tlv(0x02, uint(a["time"])) + tlv(0x04, a["imp"])) + tlv(0x0b, sigdata))
+
+
+def build_sig(rng, doc, level=0, nchains=1, links_per_chain=(1, 3), time=1500000000, pub=None, alg=1, anchor="pub",
+              kinds=("imprint",), cal_alg=1):
+    """reference aggregator + calendar: an internally consistent signature for document hash `doc` at `level`"""
+    s = Sig()
+    h = doc
+    lvl = 0
+    shapes = []
+    for ci in range(nchains):
+        n = rng.randint(*links_per_chain)
+        links = rand_links(rng, n, first_corr=(level if ci == 0 else 0), alg=alg, kinds=kinds)
+        shapes.append(shape_index(links))
+        s.chains.append(dict(time=time, index=None, inp=h, alg=alg, links=links))
+        h, lvl = aggregate(links, h, lvl, alg)
+    # chain index: chain i carries the shapes of all chains above it followed by its own
+    for ci in range(nchains):
+        s.chains[ci]["index"] = list(reversed(shapes[ci:]))
+    if anchor is None:
+        return s
+    if pub is None:
+        pub = time + rng.randrange(1, 5000)
+    shape = cal_shape(pub, time)               # root first
+    lefts = list(reversed(shape))              # leaf first
+    clinks = [(l, fake_imprint(cal_alg, b"cal" + bytes(rng.getrandbits(8) for _ in range(8)))) for l in lefts]
+    root = cal_aggregate(clinks, h)
+    s.cal = dict(pub=pub, aggr=time, inp=h, links=clinks)
+    if anchor == "pub":
+        s.pub = dict(time=pub, imp=root)
+    elif anchor == "auth":
+        s.auth = dict(time=pub, imp=root)
+    return s
+
+
+def aggr_response_payload_v2(req_id, status=0, errmsg=None, sig=None):
+    body = tlv(0x01, uint(req_id)) + tlv(0x04, uint(status))
+    if errmsg is not None:
+        body += tlv(0x05, errmsg + b"\0")
+    if sig is not None:
+        for c in sig.chains:
+            body += aggr_chain_tlv(c["time"], c["index"], c["inp"], c["alg"], c["links"])
+        if sig.cal:
+            body += cal_chain_tlv(sig.cal["pub"], sig.cal["aggr"], sig.cal["inp"], sig.cal["links"])
+        if sig.auth:
+            body += cal_auth_tlv(sig.auth)
+    return tlv(0x02, body)
+
+
+def error_payload_v2(status, msg=b"error"):
+    return tlv(0x03, tlv(0x04, uint(status)) + tlv(0x05, msg + b"\0"))
+
+
+def aggr_conf_payload_v2(max_level=None, algo=None, period=None, max_req=None):
+    b = b""
+    for t, v in ((1, max_level), (2, algo), (3, period), (4, max_req)):
+        if v is not None:
+            b += tlv(t, uint(v))
+    return tlv(0x04, b)
